@@ -65,3 +65,198 @@ Section SkelPH13.
   Proof. intros; eapply repopulate_noop; eassumption. Qed.
 End SkelPH13.
 Print Assumptions C13_code_repopulate_noop.
+
+(* ---- the STATE CONTAINERS AS TRANSLATED in skeleton mode (Gen/G_cp_*.v, Gen/G_st_*.v; facts: Proofs/GenEquivCO.v): the constructor of
+   ClusterParameters stores `sorted` of the member list it is given; a SHALLOW copy hands every field on as it is (the state's only
+   call is list(clusters): a new outer list of the same cluster objects); a DEEP copy passes every array field through np.copy, the
+   member list and the label list through list(), the clusters through their own deep_copy and the arguments through theirs - no
+   array, list or container field of the copy is the source's own field; only the immutable numbers are handed on ---- *)
+From Ticc Require Import Gen.PySkel Gen.G_cp_init Gen.G_cp_empty Gen.G_cp_shallow Gen.G_cp_deep Gen.G_st_init Gen.G_st_empty Gen.G_st_shallow Gen.G_st_deep Proofs.GenEquivCO.
+Section SkelCO13.
+  Local Open Scope string_scope.
+  Variable V : Type.
+  Variable vnone : V.
+  Variable vint : Z -> V.
+  Variable as_int : V -> option Z.
+  Variable veq : V -> V -> bool.
+  Variable getattr : V -> string -> V.
+  Variable truthy : V -> bool.
+  Variable is_none : V -> bool.
+  Variables vtrue vfalse : V.
+  Variable as_list : V -> list V.
+  Variable vglobal : string -> V.
+  Variable oracle : list (event V) -> string -> list V -> res V.
+  Let init_sets := GenEquivCO.init_sets V.
+  Let init_lit := GenEquivCO.init_lit V is_none.
+  Let cp_deep_copies := GenEquivCO.cp_deep_copies V getattr.
+  Let st_init_sets := GenEquivCO.st_init_sets V.
+  Let st_deep_copies := GenEquivCO.st_deep_copies V getattr.
+  Theorem C13_code_cluster_constructor (self cc ec glc ic ld member_points sdm ti r : V) (log log' : list (event V)) :
+    g_ClusterParameters__init_ V is_none oracle self cc ec glc ic ld member_points sdm ti log = (Ret r, log') ->
+    exists s1 s2 s3 s4 s5 s6 s7 members sorted_members,
+      log' = (log ++ init_sets self cc ec glc ic ld sdm ti s1 s2 s3 s4 s5 s6
+                  ++ init_lit member_points
+                  ++ [Ev "sorted" [members]; Ev "setattr:_member_points" [s7; sorted_members]])%list /\
+      oracle log "setattr:computed_covariance" [self; cc] = Ret s1 /\
+      oracle (log ++ firstn 1 (init_sets self cc ec glc ic ld sdm ti s1 s2 s3 s4 s5 s6))%list
+             "setattr:empirical_covariance" [s1; ec] = Ret s2 /\
+      oracle (log ++ firstn 2 (init_sets self cc ec glc ic ld sdm ti s1 s2 s3 s4 s5 s6))%list
+             "setattr:graphical_lasso_cost" [s2; glc] = Ret s3 /\
+      oracle (log ++ firstn 3 (init_sets self cc ec glc ic ld sdm ti s1 s2 s3 s4 s5 s6))%list
+             "setattr:inverse_covariance" [s3; ic] = Ret s4 /\
+      oracle (log ++ firstn 4 (init_sets self cc ec glc ic ld sdm ti s1 s2 s3 s4 s5 s6))%list
+             "setattr:log_determinant" [s4; ld] = Ret s5 /\
+      oracle (log ++ firstn 5 (init_sets self cc ec glc ic ld sdm ti s1 s2 s3 s4 s5 s6))%list
+             "setattr:stacked_data_mean" [s5; sdm] = Ret s6 /\
+      oracle (log ++ firstn 6 (init_sets self cc ec glc ic ld sdm ti s1 s2 s3 s4 s5 s6))%list
+             "setattr:train_inverse" [s6; ti] = Ret s7 /\
+      (if is_none member_points
+       then oracle (log ++ init_sets self cc ec glc ic ld sdm ti s1 s2 s3 s4 s5 s6)%list "expr:[]" [] = Ret members
+       else members = member_points) /\
+      oracle (log ++ init_sets self cc ec glc ic ld sdm ti s1 s2 s3 s4 s5 s6 ++ init_lit member_points)%list
+             "sorted" [members] = Ret sorted_members /\
+      oracle (log ++ init_sets self cc ec glc ic ld sdm ti s1 s2 s3 s4 s5 s6 ++ init_lit member_points
+                  ++ [Ev "sorted" [members]])%list
+             "setattr:_member_points" [s7; sorted_members] = Ret r.
+  Proof. intros; eapply cp_init_returns; eassumption. Qed.
+  Theorem C13_code_cluster_empty (r : V) (log log' : list (event V)) :
+    g_ClusterParameters_empty_cluster V vnone oracle log = (Ret r, log') ->
+    exists members,
+      log' = (log ++ [Ev "expr:[]" [];
+                      Ev f_cp_ctor_empty [members; vnone; vnone; vnone; vnone; vnone; vnone]])%list /\
+      oracle log "expr:[]" [] = Ret members /\
+      oracle (log ++ [Ev "expr:[]" []])%list f_cp_ctor_empty [members; vnone; vnone; vnone; vnone; vnone; vnone] = Ret r.
+  Proof. intros; eapply cp_empty_returns; eassumption. Qed.
+  Theorem C13_code_cluster_shallow_copy (self r : V) (log log' : list (event V)) :
+    g_ClusterParameters_shallow_copy V getattr oracle self log = (Ret r, log') ->
+    log' = (log ++ [Ev f_cp_ctor
+                       [getattr self "computed_covariance"; getattr self "empirical_covariance";
+                        getattr self "graphical_lasso_cost"; getattr self "inverse_covariance";
+                        getattr self "log_determinant"; getattr self "member_points";
+                        getattr self "stacked_data_mean"; getattr self "train_inverse"]])%list /\
+    oracle log f_cp_ctor
+           [getattr self "computed_covariance"; getattr self "empirical_covariance";
+            getattr self "graphical_lasso_cost"; getattr self "inverse_covariance";
+            getattr self "log_determinant"; getattr self "member_points";
+            getattr self "stacked_data_mean"; getattr self "train_inverse"] = Ret r.
+  Proof. intros; eapply cp_shallow_returns; eassumption. Qed.
+  Theorem C13_code_cluster_deep_copy (self r : V) (log log' : list (event V)) :
+    g_ClusterParameters_deep_copy V getattr oracle self log = (Ret r, log') ->
+    exists cc' ec' ic' mp' sdm' ti',
+      log' = (log ++ cp_deep_copies self
+                  ++ [Ev f_cp_ctor [cc'; ec'; getattr self "graphical_lasso_cost"; ic'; getattr self "log_determinant";
+                                    mp'; sdm'; ti']])%list /\
+      oracle log "np.copy" [getattr self "computed_covariance"] = Ret cc' /\
+      oracle (log ++ firstn 1 (cp_deep_copies self))%list "np.copy" [getattr self "empirical_covariance"] = Ret ec' /\
+      oracle (log ++ firstn 2 (cp_deep_copies self))%list "np.copy" [getattr self "inverse_covariance"] = Ret ic' /\
+      oracle (log ++ firstn 3 (cp_deep_copies self))%list "list" [getattr self "member_points"] = Ret mp' /\
+      oracle (log ++ firstn 4 (cp_deep_copies self))%list "np.copy" [getattr self "stacked_data_mean"] = Ret sdm' /\
+      oracle (log ++ firstn 5 (cp_deep_copies self))%list "np.copy" [getattr self "train_inverse"] = Ret ti' /\
+      oracle (log ++ cp_deep_copies self)%list f_cp_ctor
+             [cc'; ec'; getattr self "graphical_lasso_cost"; ic'; getattr self "log_determinant"; mp'; sdm'; ti'] = Ret r.
+  Proof. intros; eapply cp_deep_returns; eassumption. Qed.
+  Theorem C13_code_state_constructor (self arguments clusters label_assignment_cost point_labels point_log_likelihood stacked_training_data r : V)
+                          (log log' : list (event V)) :
+    g_ModelState__init_ V oracle self arguments clusters label_assignment_cost point_labels point_log_likelihood
+                        stacked_training_data log = (Ret r, log') ->
+    exists s1 s2 s3 s4 s5,
+      log' = (log ++ st_init_sets self arguments clusters label_assignment_cost point_labels point_log_likelihood
+                                  stacked_training_data s1 s2 s3 s4 s5)%list /\
+      oracle log "setattr:arguments" [self; arguments] = Ret s1 /\
+      oracle (log ++ firstn 1 (st_init_sets self arguments clusters label_assignment_cost point_labels point_log_likelihood
+                                            stacked_training_data s1 s2 s3 s4 s5))%list
+             "setattr:clusters" [s1; clusters] = Ret s2 /\
+      oracle (log ++ firstn 2 (st_init_sets self arguments clusters label_assignment_cost point_labels point_log_likelihood
+                                            stacked_training_data s1 s2 s3 s4 s5))%list
+             "setattr:label_assignment_cost" [s2; label_assignment_cost] = Ret s3 /\
+      oracle (log ++ firstn 3 (st_init_sets self arguments clusters label_assignment_cost point_labels point_log_likelihood
+                                            stacked_training_data s1 s2 s3 s4 s5))%list
+             "setattr:_point_labels" [s3; point_labels] = Ret s4 /\
+      oracle (log ++ firstn 4 (st_init_sets self arguments clusters label_assignment_cost point_labels point_log_likelihood
+                                            stacked_training_data s1 s2 s3 s4 s5))%list
+             "setattr:point_log_likelihood" [s4; point_log_likelihood] = Ret s5 /\
+      oracle (log ++ firstn 5 (st_init_sets self arguments clusters label_assignment_cost point_labels point_log_likelihood
+                                            stacked_training_data s1 s2 s3 s4 s5))%list
+             "setattr:stacked_training_data" [s5; stacked_training_data] = Ret r.
+  Proof. intros; eapply st_init_returns; eassumption. Qed.
+  Theorem C13_code_state_empty (user_args stacked_training_data r : V) (log log' : list (event V)) :
+    g_ModelState_empty_model V oracle user_args stacked_training_data log = (Ret r, log') ->
+    exists clusters,
+      log' = (log ++ [Ev f_empty_clusters [user_args];
+                      Ev f_st_ctor_empty [user_args; clusters; stacked_training_data]])%list /\
+      oracle log f_empty_clusters [user_args] = Ret clusters /\
+      oracle (log ++ [Ev f_empty_clusters [user_args]])%list f_st_ctor_empty [user_args; clusters; stacked_training_data] = Ret r.
+  Proof. intros; eapply st_empty_returns; eassumption. Qed.
+  Theorem C13_code_state_shallow_copy (self r : V) (log log' : list (event V)) :
+    g_ModelState_shallow_copy V getattr oracle self log = (Ret r, log') ->
+    exists clusters',
+      log' = (log ++ [Ev "list" [getattr self "clusters"];
+                      Ev f_st_ctor [getattr self "arguments"; clusters'; getattr self "label_assignment_cost";
+                                    getattr self "_point_labels"; getattr self "point_log_likelihood";
+                                    getattr self "stacked_training_data"]])%list /\
+      oracle log "list" [getattr self "clusters"] = Ret clusters' /\
+      oracle (log ++ [Ev "list" [getattr self "clusters"]])%list f_st_ctor
+             [getattr self "arguments"; clusters'; getattr self "label_assignment_cost";
+              getattr self "_point_labels"; getattr self "point_log_likelihood";
+              getattr self "stacked_training_data"] = Ret r.
+  Proof. intros; eapply st_shallow_returns; eassumption. Qed.
+  Theorem C13_code_state_deep_copy (self r : V) (log log' : list (event V)) :
+    g_ModelState_deep_copy V getattr oracle self log = (Ret r, log') ->
+    exists new_clusters args' labels' pll' data',
+      log' = (log ++ st_deep_copies self
+                  ++ [Ev f_st_ctor [args'; new_clusters; getattr self "label_assignment_cost"; labels'; pll'; data']])%list /\
+      oracle log f_deep_clusters [self] = Ret new_clusters /\
+      oracle (log ++ firstn 1 (st_deep_copies self))%list "method:deep_copy" [getattr self "arguments"] = Ret args' /\
+      oracle (log ++ firstn 2 (st_deep_copies self))%list "list" [getattr self "_point_labels"] = Ret labels' /\
+      oracle (log ++ firstn 3 (st_deep_copies self))%list "np.copy" [getattr self "point_log_likelihood"] = Ret pll' /\
+      oracle (log ++ firstn 4 (st_deep_copies self))%list "np.copy" [getattr self "stacked_training_data"] = Ret data' /\
+      oracle (log ++ st_deep_copies self)%list f_st_ctor
+             [args'; new_clusters; getattr self "label_assignment_cost"; labels'; pll'; data'] = Ret r.
+  Proof. intros; eapply st_deep_returns; eassumption. Qed.
+End SkelCO13.
+Print Assumptions C13_code_cluster_constructor.
+Print Assumptions C13_code_cluster_empty.
+Print Assumptions C13_code_cluster_shallow_copy.
+Print Assumptions C13_code_cluster_deep_copy.
+Print Assumptions C13_code_state_constructor.
+Print Assumptions C13_code_state_empty.
+Print Assumptions C13_code_state_shallow_copy.
+Print Assumptions C13_code_state_deep_copy.
+
+(* ---- the USER ARGUMENTS' copies AS TRANSLATED (Gen/G_ua_*.v; facts: Proofs/GenEquivAR.v): the deep copy is the shallow copy with the two
+   fields that may be arrays (sparsity weight, switching cost) replaced by copy.deepcopy OF THE SOURCE'S OWN fields ---- *)
+From Ticc Require Import Gen.PySkel Gen.G_ua_shallow Gen.G_ua_deep Proofs.GenEquivAR.
+Section SkelAR13.
+  Local Open Scope string_scope.
+  Variable V : Type.
+  Variable vnone : V.
+  Variable vint : Z -> V.
+  Variable as_int : V -> option Z.
+  Variable veq : V -> V -> bool.
+  Variable getattr : V -> string -> V.
+  Variable truthy : V -> bool.
+  Variable is_none : V -> bool.
+  Variables vtrue vfalse : V.
+  Variable as_list : V -> list V.
+  Variable vglobal : string -> V.
+  Variable oracle : list (event V) -> string -> list V -> res V.
+  Let ua_fields := GenEquivAR.ua_fields V getattr.
+  Let ua_deep_events := GenEquivAR.ua_deep_events V getattr.
+  Theorem C13_code_arguments_shallow_copy (self r : V) (log log' : list (event V)) :
+    g_UserArguments_shallow_copy V getattr oracle self log = (Ret r, log') ->
+    log' = (log ++ [Ev f_ua_ctor (ua_fields self)])%list /\
+    oracle log f_ua_ctor (ua_fields self) = Ret r.
+  Proof. intros; eapply ua_shallow_returns; eassumption. Qed.
+  Theorem C13_code_arguments_deep_copy (self r : V) (log log' : list (event V)) :
+    g_UserArguments_deep_copy V getattr oracle self log = (Ret r, log') ->
+    exists c0 w c1 b,
+      log' = (log ++ ua_deep_events self c0 w c1 b)%list /\
+      oracle log "method:shallow_copy" [self] = Ret c0 /\
+      oracle (log ++ firstn 1 (ua_deep_events self c0 w c1 b))%list "copy.deepcopy" [getattr self "sparsity_weight"] = Ret w /\
+      oracle (log ++ firstn 2 (ua_deep_events self c0 w c1 b))%list "setattr:sparsity_weight" [c0; w] = Ret c1 /\
+      oracle (log ++ firstn 3 (ua_deep_events self c0 w c1 b))%list "copy.deepcopy" [getattr self "label_switching_cost"] = Ret b /\
+      oracle (log ++ firstn 4 (ua_deep_events self c0 w c1 b))%list "setattr:label_switching_cost" [c1; b] = Ret r.
+  Proof. intros; eapply ua_deep_returns; eassumption. Qed.
+End SkelAR13.
+Print Assumptions C13_code_arguments_shallow_copy.
+Print Assumptions C13_code_arguments_deep_copy.
